@@ -17,6 +17,13 @@ def sh(cmd, cwd=None, timeout=None, stdin=None):
     return p.returncode, p.stdout
 
 
+def REPO_HEAD():
+    try:
+        return subprocess.run(["git", "-C", "/repo", "rev-parse", "--short", "HEAD"], capture_output=True, text=True).stdout.strip()
+    except Exception:
+        return "?"
+
+
 class BuildLock:
     def __enter__(self):
         self.f = open(os.path.join(ROOT, ".build.lock"), "w")
@@ -281,8 +288,10 @@ class Run:
         return [x for x in json.load(open(f)).get("findings", []) if x.get("property") == self.pid and x.get("status") == "open"]
 
     def main(self):
-        for f in glob.glob(os.path.join(self.out, "violation_*.json")):   # replay files of an earlier run
-            os.remove(f)
+        prev = os.path.join(self.out, "prev")                             # replay files of the previous run are kept once
+        os.makedirs(prev, exist_ok=True)
+        for f in glob.glob(os.path.join(self.out, "violation_*.json")):
+            os.replace(f, os.path.join(prev, os.path.basename(f)))
         self.build()
         self.audit()
         fams = self.cfg.get("families", [])
@@ -364,6 +373,13 @@ class Run:
         self.write_evidence(results, oracle, div, viol_lines, known_lines, searched, extra_out)
         for l in known_lines: print(l)
         for l in viol_lines: print(l)
+        try:                                                              # one line per run, with the kinds of failures seen
+            with open(os.path.join(self.out, "history.log"), "a") as h:
+                h.write(f"{time.strftime('%FT%TZ', time.gmtime())} tier={self.tier} seed={self.seed} repo={REPO_HEAD()} "
+                        f"div={len(div)} oracle={len(oracle)} kinds={json.dumps(getattr(self, 'oracle_kinds', {}))} "
+                        f"first={json.dumps([(f, s_, w[:200]) for f, s_, w, _ in oracle[:3]])} errors={json.dumps([e[:200] for e in errors[:3]])}\n")
+        except Exception:
+            pass
         if self.problems:
             for w, d in self.problems[:5]:
                 print(f"# broken obligation [{w}]: {d[:600]}", file=sys.stderr)
